@@ -219,7 +219,7 @@ def run(rep):
                 "fuzz part adds random UTF-8, dictionary words, regex-shaped fragments and mutated test lines. A case = one text under one language and configuration; non-trivial = "
                 "the text is not blank." % len(A))
     rep.assumptions = ["TLA+ cannot observe Rust panics or non-termination: that half is exploration driven by the model's alphabet (evidence says so); the slot structure is validated by TLC",
-                       "lines are at most 256 characters; a worker that dies or exceeds 45 s is an observation (crash / hang)", "custom rules are outside C01's configuration space", "TLC 1.8.0"]
+                       "lines are at most 256 characters (a family of lines with 60..300 repeated operands is longer); a worker that dies or exceeds 45 s is an observation (crash / hang)", "custom rules are outside C01's configuration space", "TLC 1.8.0"]
     r = tlc_must_pass("MC_SmartCalc", "MC_SmartCalc", workers=8, timeout=1500)
     rep.add_tlc("MC_SmartCalc(safety)", r)
     r = tlc_must_pass("MC_SmartCalc", "MC_SmartCalc_live", workers=8, timeout=900)
@@ -307,6 +307,16 @@ def run(rep):
         ftexts.append((s, rng.choice(LANGS + ["en", "en"]), rng.choice(cs)))
     run_texts(rep, ftexts, "c01.fuzz")
     rep.extra["fuzz_texts"] = len(ftexts)
+    # ---- many tokens ----------------------------------------------------------------------------------------------------
+    # the 256-character bound above also bounds the number of tokens of a line; counters of tokens have their own widths
+    # (128, 256): lines of 60..300 repeated operands, ending in a variable, a conversion or an open parenthesis
+    many = []
+    for n in (60, 126, 127, 128, 129, 130, 254, 255, 256, 257, 300):
+        for unit in ("1 + ", "$1 + ", "2 km + ", "3 * ", "1 hour "):
+            for tail, pre in (("x", "x = 5\n"), ("1", ""), ("5 km to m", ""), ("10 usd to try", ""), ("blip", "blip = 10 usd\n"), ("(2", ""), ("y to cm", "y = 5 km\n")):
+                many.append((pre + unit * n + tail, LANGS[len(many) % 2], cs[0]))
+    run_texts(rep, many, "c01.many")
+    rep.extra["many_token_texts"] = len(many)
     # the same evaluation with logging switched on (what an application sees after SmartCalc::initialize()): the arguments of the
     # library's log statements are then evaluated too.  Every text with an atom or a field, a third of the others.
     logged = [t for i, t in enumerate(texts) if i % 3 == 0 or "[" in t[0] or "{" in t[0]] + ftexts[::3]
